@@ -47,6 +47,32 @@ fn gen_term(r: &mut Rng, depth: u32, no_ripple: bool) -> T0 {
     }
 }
 
+/// a sequence `c₁, c₂, …`: every chain but the last ends in a statically non-nil term (the compiler
+/// stops compiling a sequence after a statically nil step)
+pub fn gen_seq(r: &mut Rng, depth: u32) -> Vec<Vec<T0>> {
+    let n = 1 + r.usize(3);
+    let mut out = vec![];
+    for i in 0..n {
+        let mut c = gen_chain(r, depth, i == 0);
+        if i + 1 < n {
+            let last_ok = match c.last() {
+                Some(T0::Int(_)) => true,
+                Some(T0::Tup(name, fs)) => name.is_some() || !fs.is_empty(),
+                _ => false,
+            };
+            if !last_ok {
+                c.push(T0::Int(r.range(0, 9)));
+            }
+        }
+        out.push(c);
+    }
+    out
+}
+
+pub fn src_seq(s: &[Vec<T0>]) -> String {
+    s.iter().map(|c| src_chain(c)).collect::<Vec<_>>().join(", ")
+}
+
 pub fn src_chain(c: &[T0]) -> String {
     c.iter().map(src_term).collect::<Vec<_>>().join(" ")
 }
@@ -119,6 +145,9 @@ fn show(i: &Instruction) -> String {
         Instruction::Pick(k) => format!("pick{k}"),
         Instruction::Tuple(id) => format!("tuple{id}"),
         Instruction::Rotate(n) => format!("rot{n}"),
+        Instruction::Duplicate => "dup".into(),
+        Instruction::Not => "not".into(),
+        Instruction::JumpIf(off) => format!("jumpif{off}"),
         other => format!("<{other:?}>"),
     }
 }
@@ -131,9 +160,9 @@ pub struct FragCase {
     pub note: String,
 }
 
-/// Compile `chain` with the real compiler and prepare the model request.
-pub fn prepare(chain: &[T0], unit: &qverif::run::Unit) -> FragCase {
-    let source = src_chain(chain);
+/// Compile the sequence with the real compiler and prepare the model request.
+pub fn prepare(seq: &[Vec<T0>], unit: &qverif::run::Unit) -> FragCase {
+    let source = src_seq(seq);
     let bc = unit.program.to_bytecode(Some(unit.entry));
     let f = &bc.functions[unit.entry];
     let ins = &f.instructions;
@@ -149,7 +178,21 @@ pub fn prepare(chain: &[T0], unit: &qverif::run::Unit) -> FragCase {
     let tuples: Vec<usize> = body.iter().filter_map(|i| if let Instruction::Tuple(t) = i { Some(*t) } else { None }).collect();
     let mut ids = Ids { consts: consts.iter(), tuples: tuples.iter() };
     let mut checks = vec![];
-    let request = sx_chain(chain, &mut ids, &mut checks).map(|c| format!("(compile0 {c})"));
+    let mut parts = vec![];
+    let mut complete = true;
+    for c in seq {
+        match sx_chain(c, &mut ids, &mut checks) {
+            Some(x) => parts.push(x),
+            None => complete = false,
+        }
+    }
+    let request = if !complete {
+        None
+    } else if parts.len() == 1 {
+        Some(format!("(compile0 {})", parts[0]))
+    } else {
+        Some(format!("(compile0seq {})", parts.join(" ")))
+    };
     let leftover = ids.consts.next().is_some() || ids.tuples.next().is_some();
     let mut checks_ok = !leftover;
     for c in &checks {
